@@ -330,10 +330,11 @@ where
         let mut left_cumulative = cdf.next().expect("cdf is not empty");
         let cdf = cdf.chain(core::iter::once(wrapping_pow2(PRECISION)));
 
-        let symbol_table = symbols
-            .into_iter()
-            .zip(cdf)
-            .map(|(symbol, right_cumulative)| {
+        // Iterate `cdf` first so that a surplus symbol is not consumed by `zip`.
+        let mut symbols = symbols.into_iter();
+        let symbol_table = cdf
+            .zip(&mut symbols)
+            .map(|(right_cumulative, symbol)| {
                 let probability = right_cumulative
                     .wrapping_sub(&left_cumulative)
                     .into_nonzero()
@@ -343,7 +344,13 @@ where
                 (symbol, old_left_cumulative, probability)
             });
 
-        Ok(Self::from_symbol_table(symbol_table))
+        let model = Self::from_symbol_table(symbol_table);
+        if model.cdf.len() != probabilities.len() + 1 || symbols.next().is_some() {
+            // `symbols` must yield exactly `probabilities.len()` symbols; with fewer symbols the
+            // lookup table would not cover all quantiles (it is indexed without bounds checks).
+            return Err(());
+        }
+        Ok(model)
     }
 
     /// Deprecated constructor.
